@@ -119,6 +119,23 @@ theorem nested_collision_counterexample :
     (run (fun _ => 0) (init selfProgs) (List.replicate 18 0)).1.deadlocked (fun _ => 0) = true :=
   nested_collision_counterexample'
 
+
+/-- the array cell counts simultaneous read holds exactly and without bound (the model's cell is an
+`Int`): while a caller has `n` re-entrant reads of `k` open, the slot equals the total number of read
+holds on the index and is at least `n`.  The real cell is a C `short`; that it can hold the number
+of simultaneous readers is in the trusted base and probed by the harness up to 400 -/
+theorem slot_counts_readers {idx : Nat → Nat} {progs : List (List (List Instr))} {s : St}
+    (h : Reachable idx progs s) {j : Nat} {c : Caller} {k : Nat} (hj : s.cs[j]? = some c) (hk : k ∈ c.stack) :
+    s.arr (idx k) = (s.R idx (idx k) : Int) ∧ (c.stack.count k : Int) ≤ s.arr (idx k) := slot_counts_readers' h hj hk
+
+/-- 200 nested re-entrant reads by one caller: every acquisition is admitted, the slot reads 200 at
+the deepest point and 0 when all blocks are left -/
+example : (run id (init (nestProgs 200)) (List.replicate (5 * 200 + 5) 0)).1.arr 0 = 200 ∧
+    (run id (init (nestProgs 200)) (List.replicate (7 * 200 + 5) 0)).1.arr 0 = 0 ∧
+    (run id (init (nestProgs 200)) (List.replicate (7 * 200 + 5) 0)).1.allTerminal = true ∧
+    ((run id (init (nestProgs 200)) (List.replicate (7 * 200 + 5) 0)).2.filter (fun e => e.2 == Ev.spin)).length = 0 := by
+  decide +kernel
+
 /-- bounded progress: every step that is not a failed lock guard strictly decreases the variant
 `St.measure`; a failed guard leaves the state unchanged.  With `deadlock_free_partial`: under weak
 fairness every caller terminates after at most `(init progs).measure` effective steps -/
